@@ -168,6 +168,16 @@ func (g *G) str(aware bool, limit int) string {
 	for i := range b {
 		b[i] = alnum[g.rng.Intn(len(alnum))]
 	}
+	if n > 0 && g.chance(8) { // white space at the edges and inside (written ~ and ^ in the script, see script.Tok)
+		b[0] = " \t"[g.rng.Intn(2)]
+		if g.chance(60) {
+			b[n-1] = ' '
+		}
+		if n > 2 && g.chance(30) {
+			b[n/2] = ' '
+		}
+		g.st.StrLen["blank-padded"]++
+	}
 	return script.Tok(string(b))
 }
 
